@@ -204,10 +204,16 @@ func Main() {
 		fmt.Sscanf(*worker, "%d/%d", &i, &n)
 		deadline := time.Now().Add(*budget)
 		var out workerOut
+		_ = i
+		_ = n
 		for j := range units {
-			if j%n != i {
+			// units are claimed one at a time (an exclusively created marker file next to the worker outputs), so
+			// that a worker busy with a large unit does not keep smaller ones waiting
+			cf, cerr := os.OpenFile(filepath.Join(filepath.Dir(*wout), fmt.Sprintf("claim-%d", j)), os.O_CREATE|os.O_EXCL|os.O_WRONLY, 0o644)
+			if cerr != nil {
 				continue
 			}
+			cf.Close()
 			before := mc.RaceErrors()
 			r := runUnit(&units[j], deadline)
 			if d := mc.RaceErrors() - before; d > 0 {
@@ -278,6 +284,13 @@ func Main() {
 	}
 	var viols []uv
 	unitSamples := []map[string]any{}
+	incomplete := []string{}
+	type unitSize struct {
+		Unit       string `json:"unit"`
+		Executions int    `json:"executions"`
+		WallMS     int64  `json:"wall_ms"`
+	}
+	var largest []unitSize
 	for i := 0; i < n; i++ {
 		b, err := os.ReadFile(filepath.Join(tmp, fmt.Sprintf("w%d.json", i)))
 		if err != nil {
@@ -296,6 +309,10 @@ func Main() {
 			u.Stats.Violations = nil
 			total.Merge(u.Stats)
 			states += u.States
+			if !u.Stats.Complete {
+				incomplete = append(incomplete, u.Name)
+			}
+			largest = append(largest, unitSize{u.Name, u.Stats.Executions, u.WallMS})
 			races = append(races, u.Races...)
 			if len(unitSamples) < 5 {
 				unitSamples = append(unitSamples, map[string]any{"unit": u.Name, "executions": u.Stats.Executions, "states": u.States,
@@ -394,6 +411,15 @@ func Main() {
 	if p.NeedRace {
 		ev["coverage"].(map[string]any)["race_reports"] = len(races)
 	}
+	// what a capped run did not finish, and where the time went
+	sort.Slice(largest, func(i, j int) bool { return largest[i].Executions > largest[j].Executions })
+	if len(largest) > 5 {
+		largest = largest[:5]
+	}
+	sort.Strings(incomplete)
+	ev["coverage"].(map[string]any)["largest_units"] = largest
+	ev["coverage"].(map[string]any)["budget_s"] = budget.Seconds()
+	ev["coverage"].(map[string]any)["units_cut_by_budget"] = incomplete
 	if *evidence != "" {
 		os.MkdirAll(filepath.Dir(*evidence), 0o755)
 		js, _ := json.MarshalIndent(ev, "", " ")
